@@ -154,7 +154,8 @@ def rule_bp(ctx, R):
                         guards.append((gb, s))
         R.check(bool(guards) and not reaches_without(cfg, [0], bi, cut_edges=guards), "bp:range", "a user-supplied breakpoint %s is inserted only after it compared strictly below the program length" % v[:60], t["span"]["at"])
     # `break` without a number lists, with a number toggles: the listing is entered exactly for fewer than two words
-    prints_ = [bi for bi, t in b.calls() if callee_name(t["f"], fb) == "hyeong::app::check::print_un_opt_codes" and "BPS" in roles.of_operand(t["args"][2], bi)]
+    all_prints = [bi for bi, t in b.calls() if callee_name(t["f"], fb) == "hyeong::app::check::print_un_opt_codes"]
+    reads_ = [bi for bi, t in b.calls() if callee_name(t["f"], fb) == "hyeong::util::io::read_line_from"]
     few, many = [], []
     for gb, blk in enumerate(b.blocks):
         tt = blk["term"]
@@ -165,6 +166,8 @@ def rule_bp(ctx, R):
                     few.append((gb, s))
                 elif lab.startswith("LT[Vec::len(") and "read_line_from" in lab and lab.endswith(",K2]=0"):
                     many.append((gb, s))
+    # the listing call: the print reachable from the "fewer than two words" edge before the next line is read
+    prints_ = [pb for pb in all_prints if few and reaches_without(cfg, [few[0][1]], pb, cut_blocks=reads_)]
     if R.anchor(len(prints_) == 1 and len(few) == 1 and len(many) == 1, "bp:listing", "the breakpoint listing and the test on the number of words"):
         R.check(not reaches_without(cfg, [0], prints_[0], cut_edges=few) and all(not reaches_without(cfg, [many[0][1]], prints_[0], cut_blocks=[bi for bi, t in b.calls() if callee_name(t["f"], fb) == "hyeong::util::io::read_line_from"]) for _ in (0,)), "bp:listing_iff", "`break` lists the breakpoints exactly when no number is given (fewer than two words)", b.blocks[prints_[0]]["term"]["span"]["at"])
     # the listing indexes the program with every breakpoint: the closure doing so is the only indexing by a set element
